@@ -2,6 +2,7 @@
 //! (DESIGN.md §12): how a model is written, how a source is read into an observation.
 
 pub mod align;
+pub mod index;
 pub mod kinds;
 pub mod text;
 pub mod variant;
